@@ -210,3 +210,32 @@ func init() {
 		},
 	})
 }
+
+// mixGen draws runs from several stream generators (tap-invariant properties
+// are evaluated on the same kind of runs as C01-C03).
+func mixGen(id string, salt uint64, parts ...string) func(master uint64, idx int, tier string) *spec.RunSpec {
+	return func(master uint64, idx int, tier string) *spec.RunSpec {
+		src := parts[idx%len(parts)]
+		s := props[src].gen(master^salt, idx, tier)
+		s.Property = id
+		s.Profile = src + ":" + s.Profile
+		return s
+	}
+}
+
+func init() {
+	register(&propDef{
+		id: "C14", level: "exploration", quickRuns: 192, thoroughRuns: 4000, wallPerRun: 5 * time.Minute,
+		rule: "UDP runs from the C02/C03 generators with MTU 1280-1500 drawn independently per side, padding maxima 0..255, low-entropy off/32/40/48/56, write sizes 1 B to several fragments, first-write piggyback 0..1024, and fault profiles that force retransmissions, acks and control segments. On every emitted datagram: len <= sender's configured MTU; on every decoded segment (both transports): session payload <= 1024, fragment <= 32768, low-entropy length law.",
+		assumptions: []string{"the configured MTU of a sender is the mtu field of its own configuration", "the reference codec is the trusted base"},
+		components:  realComponents,
+		gen:         mixGen("C14", 0x14, "C02", "C02", "C03", "C01"),
+	})
+	register(&propDef{
+		id: "C16", level: "exploration", quickRuns: 192, thoroughRuns: 4000, wallPerRun: 5 * time.Minute,
+		rule: "Every run draws independent TrafficPattern messages for server and each client with a random subset of explicit fields at boundary values (0, 255, minLen=maxLen, maxLen below the implicit minLen range, 0..12-byte and multiple fixed prefixes), seed and unlockAll. Before the run: NewConfig succeeds for every message Validate accepts, explicit fields are unchanged in Effective(), Effective() is equal across two constructions and passes Validate, Decode(Encode(p)) == p. On the tap, against Effective(): prefix/suffix padding within the maxima, nonce prefix conforms (first UDP packet / every packet with applyToAllUDPPacket / the TCP nonce), TCP handshake segments fragmented iff explicitly enabled, low-entropy types/mode/rotation as configured, a server uses low entropy only after the client did on that session.",
+		assumptions: []string{"implicit values are held to what Config.Effective() reports; explicit ones to what was written", "printable means 0x20..0x7e as documented"},
+		components:  realComponents,
+		gen:         mixGen("C16", 0x16, "C01", "C02", "C03"),
+	})
+}
